@@ -503,6 +503,63 @@ def build(run):
     run.function(DAGTraverser.postorder_only_children)
     run.add("dagtraverser/postorder_only_children(all index lists)", only_children, kind="values")
 
+    # ---- contract of DAGTraverser.__call__ with keyword arguments: the memo is keyed by the node AND the keyword arguments (names and
+    # values); a handler that visits a shared operand under different keyword names / values gets the result for those very arguments
+    def kwargs_memo():
+        from functools import singledispatchmethod
+
+        class D(DAGTraverser):
+            @singledispatchmethod
+            def process(self, o, scale=1, shift=0):
+                return super().process(o)
+
+            @process.register(Anchor)
+            def _(self, o, scale=1, shift=0):
+                return ("t", o._name, scale, shift)
+
+            @process.register(N1)
+            @DAGTraverser.postorder
+            def _(self, o, a, scale=1, shift=0):
+                return ("n1", a, scale, shift)
+
+            @process.register(N2)
+            def _(self, o, scale=1, shift=0):
+                a, b = o.ufl_operands
+                return ("n2", self(a, scale=scale + 1), self(b, shift=scale + 1), scale, shift)     # same value, different keyword
+
+            @process.register(N3)
+            def _(self, o, scale=1, shift=0):
+                a, b, c = o.ufl_operands
+                return ("n3", self(a, scale=2, shift=3), self(b, shift=2, scale=3), self(c, shift=3, scale=2), scale, shift)
+
+        def rec(o, scale=1, shift=0):
+            if isinstance(o, Anchor):
+                return ("t", o._name, scale, shift)
+            if isinstance(o, N1):
+                return ("n1", rec(o.ufl_operands[0], scale=scale, shift=shift), scale, shift)
+            if isinstance(o, N2):
+                a, b = o.ufl_operands
+                return ("n2", rec(a, scale=scale + 1), rec(b, shift=scale + 1), scale, shift)
+            a, b, c = o.ufl_operands
+            return ("n3", rec(a, scale=2, shift=3), rec(b, shift=2, scale=3), rec(c, shift=3, scale=2), scale, shift)
+        x, y = Anchor("x"), Anchor("y")
+        sh = N1(x)
+        dags = [N2(x, x), N2(sh, sh), N2(N1(x), N1(x)), N3(x, x, x), N3(sh, sh, sh), N2(N2(x, y), N2(x, y)), N1(N2(sh, N3(sh, x, sh))),
+                N2(N3(x, y, x), N2(y, x))]
+        n = 0
+        for e in dags:
+            for kw in ({}, {"scale": 2}, {"shift": 2}, {"scale": 1, "shift": 1}, {"shift": 1, "scale": 1}):
+                for compress in (True, False):
+                    got = D(compress=compress)(e, **kw)
+                    want = rec(e, **kw)
+                    n += 1
+                    if got != want:
+                        return violated(f"DAGTraverser(compress={compress}) on {rec_apply(e)} with keyword arguments {kw} returns {got}; applying the same handlers "
+                                        f"recursively gives {want}", replay={"expr": repr(rec_apply(e)), "kwargs": kw, "got": repr(got), "want": repr(want)},
+                                        reproduced=True, backend="exec")
+        return proved("exec+recursive-oracle", vcs=n, sample=f"{n} (DAG, keyword arguments, compress) cases with operands shared under different keyword names / values")
+    run.add("dagtraverser/keyword-arguments-in-the-memo-key", kwargs_memo, kind="values")
+
     # ---- bounded: all DAGs up to N nodes
     N = 6 if thorough else 5
 
